@@ -1067,15 +1067,43 @@ def run(ctx):
     ]
 
 
+def _replay_alone(case):
+    tb = Tables()
+    return [(c, t) for c, t in observe(tb, case)['failures'][:5]]
+
+
 def replay(ctx, obj):
     rp = obj.get('replay', obj)
     case = rp.get('case')
     if not case:
         print('replay names a broken obligation, no input: %s' % json.dumps(rp)[:500])
         return 1
+    # the call alone, in a process of its own (so that it cannot leave anything behind for the second look)
+    with multiprocessing.get_context('fork').Pool(1) as pool:
+        alone = pool.apply(_replay_alone, (case,))
+    if alone:
+        for clause, text in alone:
+            print('%s: %s' % (clause, text))
+        return 1
+    # a failure that needs earlier calls in the same process (a memo keyed too coarsely, ...): the run saw the case
+    # after its neighbours of the table; replay them (same syntax name, both types) in this still pristine process and
+    # then look at the case
     tb = Tables()
+    ty, syn = resolved_names(tb, case)
+    near = [c for c in gen_table(tb) if c['syntax'] == syn and (case.get('sec') is None or c.get('sec') == case.get('sec'))]
+    if not near:
+        near = [c for c in gen_table(tb) if c['syntax'] in ('html', 'css', 'zzz')]
+    near.sort(key=lambda c: resolved_names(tb, c)[0] == ty)      # the other abbreviation type first
+    for c in near:
+        if c == case:
+            continue
+        r = observe(tb, c)
+        if r['fatal']:
+            tb.restore()
     res = observe(tb, case)
     if res['failures']:
+        print('holds when the call is made alone in a fresh process, FAILS after %d other configurations were resolved / '
+              'expanded in the same process (the result depends on earlier calls):' % len(near))
         for clause, text in res['failures'][:5]:
             print('%s: %s' % (clause, text))
         return 1
